@@ -36,7 +36,10 @@ def _port(rng, k):
         dev = "COM%d" % rng.randint(1, 12); desc = "EiBotBoard (%s)" % dev; hw = "USB VID:PID=04D8:FD92 SNR=%s" % rng.choice(TAGS)
     else:
         dev = rng.choice(["/dev/ttyS%d" % k, "COM%d" % rng.randint(1, 12), "/dev/ttyUSB%d" % k])
-        desc = rng.choice(["Bluetooth-Incoming-Port", "n/a", "USB Serial Device (%s)" % dev, "Arduino Uno", "eibotboard", "My EiBotBoard"])
+        nm = rng.choice([n for n in NAMES if n] + TAGS[1:])
+        # foreign devices, some of whose descriptions begin with (or are) a name that a board in the list may carry
+        desc = rng.choice(["Bluetooth-Incoming-Port", "n/a", "USB Serial Device (%s)" % dev, "Arduino Uno", "eibotboard", "My EiBotBoard",
+                           nm + "s Controller", nm, nm + " Serial", nm.upper() + "-Link", "Axis Controller", "Bottle Filler", "Eastern Modem"])
         hw = rng.choice(["n/a", "USB VID:PID=2341:0043 SER=%s LOCATION=1-3" % rng.choice(TAGS), "USB VID:PID=04D8:FD93", "PCI\\VEN_8086"])
     return (dev, desc, hw)
 
